@@ -179,6 +179,11 @@ func ruleC09HandoutRelease(c *Ctx) {
 					c.bad(construct, u.ipos(i), "a path reaches return without Close of the handed-out key reference", u.tracePositions(out.Trace)...)
 					continue
 				}
+				// exactly once: no path releases the reference twice (a deferred Close counts at every later exit)
+				if dbl := doubleRelease(f, pr[0], &rr); dbl != nil {
+					c.bad(construct, u.ipos(dbl), "the handed-out key reference is closed twice on one path (reference count drops below the cache's own reference: the cached key is destroyed while it stays in the cache — every later use fails with 'secret has already been destroyed')")
+					continue
+				}
 				c.ok(construct, u.ipos(i), fmt.Sprintf("all paths: %v", out.How))
 			}
 		})
@@ -700,3 +705,31 @@ var pkgDirRe = regexp.MustCompile(`[A-Za-z0-9_.\-]+/`)
 
 // trimPkgDirs drops directory components of package paths: "(*appencryption/plugins/aws-v2/kms.AWSKMS).X" -> "(*kms.AWSKMS).X".
 func trimPkgDirs(s string) string { return pkgDirRe.ReplaceAllString(s, "") }
+
+// doubleRelease: a second release (call or defer) of an alias of v is reachable after a first one.
+func doubleRelease(f *ssa.Function, v ssa.Value, r *ownRules) ssa.Instruction {
+	al := aliasClosure(v, r)
+	var rels []ssa.Instruction
+	allInstrs(f, func(i ssa.Instruction) {
+		if r.isRelease(i, al) {
+			rels = append(rels, i)
+		}
+	})
+	for _, r1 := range rels {
+		for _, r2 := range rels {
+			if r1 == r2 {
+				continue
+			}
+			_, r1Defer := r1.(*ssa.Defer)
+			_, r2Defer := r2.(*ssa.Defer)
+			if r2Defer && !r1Defer {
+				continue // counted from the defer's side
+			}
+			if reaches(r1, r2) {
+				// v may be re-assigned between the two (loop): only flag when both act on the same SSA value chain
+				return r2
+			}
+		}
+	}
+	return nil
+}
